@@ -5,7 +5,10 @@ import (
 	"math/big"
 	"sort"
 
+	storetypes "cosmossdk.io/store/types"
+
 	feedstypes "github.com/bandprotocol/chain/v3/x/feeds/types"
+	restaketypes "github.com/bandprotocol/chain/v3/x/restake/types"
 
 	"verifsim/world"
 )
@@ -78,6 +81,21 @@ func (m *C07) OnBlock(e *Env, blk *world.BlockRecord) {
 			ts := trueSum(sh.Votes[addr])
 			if !found || lock.Power.BigInt().Cmp(ts) != 0 {
 				e.Fail("C07", "feeds_lock", "", "%s: lock under the feeds vault is %v (found=%v), standing vote sums to %s", u.Name, lock.Power, found, ts)
+				return
+			}
+			// "locked against withdrawal": withdrawals consult the by-power index, so the lock must be in it with that power
+			store := ctx.KVStore(e.App().GetKey(restaketypes.StoreKey))
+			it := storetypes.KVStorePrefixIterator(store, restaketypes.LocksByPowerIndexKey(u.Addr))
+			indexed := false
+			for ; it.Valid(); it.Next() {
+				_, p := restaketypes.SplitLockByPowerIndexKey(it.Key())
+				if string(it.Value()) == feedstypes.ModuleName && p.Equal(lock.Power) {
+					indexed = true
+				}
+			}
+			it.Close()
+			if !indexed {
+				e.Fail("C07", "feeds_lock_not_effective", "", "%s: the feeds-vault lock of %s exists but is missing from the by-power index that withdrawals are checked against", u.Name, lock.Power)
 				return
 			}
 		}
